@@ -187,7 +187,8 @@ def strict_ancestors(nodes, i):
 
 def ref_roots(nodes, cfg):
     """C12: the pattern names the node; the filters are those of the target the node stands for.
-    Returns (roots, matched aliases standing for a target that fails the filters)."""
+    Returns (roots, matched aliases standing for a target that fails the filters).  The second list is what
+    the code selected in addition before the repair of C12-F1 (class guard of that finding)."""
     roots, bypass = [], []
     for i, nd in enumerate(nodes):
         if not ref_pattern_ok(cfg, nd):
@@ -227,7 +228,7 @@ def ref_rdeps(nodes, i):
 
 def ref_query_filter(cfg, nodes, i):
     """(passes, is_alias_bypass): a printed node must pass the tag/exclude/type/platform filters;
-    an alias stands for its target."""
+    an alias stands for its target (is_alias_bypass: an alias the code printed before the repair of C20-F2)."""
     nd = nodes[i]
     t = nodes[resolve(nodes, i)]
     ok = t["kind"] == "t" and ref_target_filters(cfg, t) and ref_platform_ok(cfg, t)
